@@ -131,11 +131,17 @@ def rule_solvers_stateless(ctx):
     r.floor(n, 15, "fields of static solver types")
     # every solver object a query works on derives from a factory call in the same query
     nq = 0
+    solver_mods = {p.rsplit("::", 1)[0] for p in solvers}
+    seen_bodies = set()
     for p in sorted(solvers):
         for b in prog.lib_bodies():
             fn = prog.enclosing_fn(b)
-            if not (fn.impl and fn.impl.get("self_adt") == p):
+            # the solver's own methods, and the private helper types / functions of its module (a goal enum, a search helper)
+            own = fn.impl and fn.impl.get("self_adt") == p
+            helper = (not own) and fn.path.rsplit("::", 2)[0].startswith(p.rsplit("::", 1)[0]) and not (fn.impl and fn.impl.get("self_adt") in solvers) and "tests" not in fn.path
+            if not (own or helper) or b.id in seen_bodies:
                 continue
+            seen_bodies.add(b.id)
             for s in b.calls():
                 c = callee_of(s)
                 if c and c.get("trait") == SATSOLVER and callee_matches(c, r"::(add_clause|solve|solve_under_assumptions|reserve)$"):
@@ -162,7 +168,7 @@ def rule_solvers_stateless(ctx):
                             kinds.add(o.kind)
                     ok = kinds <= {"factory", "passed-in"} and bool(kinds)
                     r.check(ok, "%s|%s" % (b.id, callee_decl(c).rsplit("::", 1)[-1]), "solver-origin:%s" % sorted(kinds), "SAT solver comes from the factory call of this query (or is handed in by the caller)", "the SAT solver used here comes from %s, not from a factory call of the current query" % sorted(kinds), s.loc())
-    r.floor(nq, 10, "SAT-solver uses inside static solver methods")
+    r.floor(nq, 8, "SAT-solver uses inside static solver methods")
 
 
 def rule_encoder_state_reset(ctx):
